@@ -1093,6 +1093,8 @@ class Facts:
             if b['kind'] == 'Closure' and b['root'] in used and b['root'] in newset:
                 b = dict(b)
                 host = raws.get(used[b['root']])
+                if b.get('parent') == b['root']:
+                    b['parent'] = used[b['root']]       # lexically it now lives where the helper was written in place
                 b['root'] = host['root'] if host and host['kind'] == 'Closure' else used[b['root']]
             keep.append(b)
         raw = dict(raw)
